@@ -84,6 +84,34 @@ def sweep(tier, seed=0):
                         msg = f"{type(e).__name__}: {e}"
                     if msg and len(fails) < 3:
                         fails.append(rtc.Failure("map_overlap", {"n": n, "chunks": ch, "depth": [dx, dy], "boundary": bnd, "arrays": 2}, "ensures", "C26-map_overlap-equals-padded-stencil", msg))
+        # (c) sliding_window_view equals NumPy's: every chunking of short 1-D arrays x every window length, some 2-D cases
+        from numpy.lib.stride_tricks import sliding_window_view as np_swv
+        for n in range(2, 9 if tier == "quick" else 11):
+            xs = np.arange(n) * 3 + 1
+            for ch in chunkings(n):
+                for w in range(1, n + 1):
+                    cases += 1
+                    try:
+                        got = da.lib.stride_tricks.sliding_window_view(da.from_array(xs, chunks=(ch,)), w)
+                        want = np_swv(xs, w)
+                        msg = None if (got.shape == want.shape and np.array_equal(got.compute(), want)) else f"sliding_window_view(window={w}) on chunks {ch}: shape {got.shape}, NumPy's {want.shape}, or values differ"
+                    except Exception as e:  # noqa
+                        msg = f"sliding_window_view(window={w}) on chunks {ch} raised {type(e).__name__}: {e}"
+                    if msg and len(fails) < 3:
+                        fails.append(rtc.Failure("sliding_window_view", {"n": n, "chunks": ch, "window": w}, "ensures", "C26-sliding-window-equals-numpy", msg))
+        x2s = np.arange(42).reshape(6, 7)
+        for ch in [((3, 3), (4, 3)), ((3, 3), (4, 2, 1)), ((2, 2, 2), (7,)), ((6,), (3, 2, 2)), ((4, 2), (5, 2))]:
+            for w, ax in [((2, 3), None), ((3, 2), None), (3, 0), (2, 1), ((2, 3), (0, 0)), ((2, 2), (1, 0))]:
+                cases += 1
+                try:
+                    kw = {} if ax is None else {"axis": ax}
+                    got = da.lib.stride_tricks.sliding_window_view(da.from_array(x2s, chunks=ch), w, **kw)
+                    want = np_swv(x2s, w, **kw)
+                    msg = None if (got.shape == want.shape and np.array_equal(got.compute(), want)) else f"sliding_window_view({w}, axis={ax}) on chunks {ch}: shape {got.shape} vs NumPy's {want.shape}, or values differ"
+                except Exception as e:  # noqa
+                    msg = f"sliding_window_view({w}, axis={ax}) on chunks {ch} raised {type(e).__name__}: {e}"
+                if msg and len(fails) < 3:
+                    fails.append(rtc.Failure("sliding_window_view", {"shape": (6, 7), "chunks": ch, "window": w, "axis": ax}, "ensures", "C26-sliding-window-equals-numpy", msg))
         # 1-D and 2-D: overlap then trim is the identity, for every chunking and depth (int / asymmetric tuple)
         for n in range(1, 6 if tier == "quick" else 8):
             x = np.arange(n)
@@ -183,6 +211,6 @@ def sweep(tier, seed=0):
             if time.time() - t0 > budget or len(fails) >= 3:
                 break
     return {"function": "dask/array/overlap.py: overlap_internal/trim_internal/map_overlap (real code, NumPy values; bounded only)", "bounded": True,
-            "bound": {"1-D lengths": "1..5 (quick) / 1..7, all chunkings, depths 0,1,2,(1,0),(0,2),(2,1)", "1-D asymmetric": "lengths 2..7 (quick) / 2..9, all chunkings (chunks smaller than the depth included), depths (1,2),(2,1),(1,3),(3,1),(2,3),(0,2),(2,0), boundary none", "2-D": "fixed shapes x 3 chunkings x 6 depth specs (incl. dicts in both key orders) x 5 boundaries", "2-D per-axis boundary": "3 shapes x 3 depths x 7 per-axis boundary specs (two constants, constant + mode, dicts)", "two arrays": "3 lengths x depth pairs (1,2),(2,1),(1,3) x 3 modes", "time_budget_s": budget},
+            "bound": {"1-D lengths": "1..5 (quick) / 1..7, all chunkings, depths 0,1,2,(1,0),(0,2),(2,1)", "1-D asymmetric": "lengths 2..7 (quick) / 2..9, all chunkings (chunks smaller than the depth included), depths (1,2),(2,1),(1,3),(3,1),(2,3),(0,2),(2,0), boundary none", "2-D": "fixed shapes x 3 chunkings x 6 depth specs (incl. dicts in both key orders) x 5 boundaries", "2-D per-axis boundary": "3 shapes x 3 depths x 7 per-axis boundary specs (two constants, constant + mode, dicts)", "two arrays": "3 lengths x depth pairs (1,2),(2,1),(1,3) x 3 modes", "sliding_window_view": "1-D lengths 2..8 (quick) / 2..10, every chunking x every window; 5 chunkings x 6 window/axis specs in 2-D", "time_budget_s": budget},
             "cases": cases, "distinct_nontrivial": cases, "failures_found": len(fails), "wall_s": round(time.time() - t0, 2),
             "samples": [{"native_case": {"shape": [6, 10], "chunks": [[6], [10]], "depth": {"1": 2, "0": 1}, "boundary": "reflect"}}], "failures": fails}
